@@ -52,10 +52,168 @@ def _reviewed():
     return json.load(open(os.path.join(VERIF, "tables", "panic_sites.json")))["reviewed"]
 
 
+# --------------------------------------------------------------------------- local proofs
+#
+# A panic-capable edge that a small local argument proves dead is not counted against the reviewed table
+# (and the table holds only edges that need a human argument). Three arguments are implemented; each is
+# sound on its own and names the facts it used.
+
+
+def _len_of(b, op):
+    """The slice local whose length `op` holds (`PtrMetadata(x)` or `x.len()`), traced to its root local."""
+    if not is_place(op) or op["p"]["pr"]:
+        return None
+    ds = b.whole_defs(op["p"]["l"])
+    if len(ds) != 1:
+        return None
+    _, _, kind, payload = ds[0]
+    src = None
+    if kind == "assign" and payload["rv"]["k"] == "unop" and payload["rv"]["op"] == "PtrMetadata":
+        src = payload["rv"]["a"]
+    elif kind == "assign" and payload["rv"]["k"] == "use" and is_place(payload["rv"]["op"]):
+        return _len_of(b, payload["rv"]["op"])
+    elif kind == "call" and (fn_of(payload) or {}).get("name") == "len" and (fn_of(payload) or {}).get("def", "").startswith("core::slice") and payload["args"]:
+        src = payload["args"][0]
+    if src is None:
+        return None
+    return _slice_root(b, src)
+
+
+def _slice_root(b, op, depth=0):
+    """Root local of a slice operand through copies and plain reborrows (`&*x`, `&mut *x`)."""
+    if not is_place(op) or depth > 8:
+        return None
+    p = op["p"]
+    if p["pr"]:
+        return None
+    ds = b.whole_defs(p["l"])
+    if len(ds) == 1 and ds[0][2] == "assign":
+        rv = ds[0][3]["rv"]
+        if rv["k"] == "use" and is_place(rv["op"]) and not rv["op"]["p"]["pr"]:
+            return _slice_root(b, rv["op"], depth + 1)
+        if rv["k"] in ("ref", "copyforderef") and [e["k"] for e in rv["p"]["pr"]] in (["deref"], []):
+            return _slice_root(b, {"k": "copy", "p": {"l": rv["p"]["l"], "pr": []}}, depth + 1)
+    return p["l"]
+
+
+SLICING = ("std::ops::Index", "std::ops::IndexMut")
+
+
+def _subslice_of(b, y, x, seen=None):
+    """Every definition of local y yields x itself or a sub-slice of a sub-slice of x."""
+    if y == x:
+        return True
+    seen = seen or set()
+    if y in seen:
+        return True  # a cycle through y itself (loop-carried `rest = &rest[n..]`)
+    seen = seen | {y}
+    ds = b.whole_defs(y)
+    if not ds:
+        return False
+    for _, _, kind, payload in ds:
+        if kind == "assign":
+            rv = payload["rv"]
+            if rv["k"] == "use" and is_place(rv["op"]) and not rv["op"]["p"]["pr"]:
+                if not _subslice_of(b, rv["op"]["p"]["l"], x, seen):
+                    return False
+            elif rv["k"] in ("ref", "copyforderef") and [e["k"] for e in rv["p"]["pr"]] in (["deref"], []):
+                if not _subslice_of(b, rv["p"]["l"], x, seen):
+                    return False
+            else:
+                return False
+        elif kind == "call":
+            f = fn_of(payload) or {}
+            if f.get("trait") in SLICING and "Range" in " ".join(f.get("args", [])) and payload["args"] and is_place(payload["args"][0]) and not payload["args"][0]["p"]["pr"]:
+                if not _subslice_of(b, payload["args"][0]["p"]["l"], x, seen):
+                    return False
+            else:
+                return False
+        else:
+            return False
+    return True
+
+
+def _min_with_len_of(b, op, recv_root, at_bb=None):
+    """`op` is min(len(recv), _) (std::cmp::min or Ord::min), recv being the slice with root local recv_root."""
+    tr = trace(b, op)
+    if not (tr.origin and tr.origin[0] == "call" and all(s_[0] == "use" for s_ in tr.steps)):
+        return False
+    f = fn_of(tr.origin[2]) or {}
+    if f.get("def") not in ("std::cmp::min", "std::cmp::Ord::min"):
+        return False
+    if not any(_len_of(b, a) == recv_root and recv_root is not None for a in tr.origin[2]["args"]):
+        return False
+    # the slice variable must not be re-pointed between taking the minimum and using it
+    mb = tr.origin[1]
+    for db, _, _, _ in b.whole_defs(recv_root):
+        if at_bb is None:
+            return False
+        if db == at_bb or (db != mb and db in b.reachable_from(mb, removed_nodes=[at_bb]) and at_bb in b.reachable_from(db, removed_nodes=[mb])):
+            return False
+    return True
+
+
+_IV = {}
+
+
+def local_proof(b, bi):
+    """Reason string when the panic-capable terminator of block bi is dead by a local argument, else None."""
+    import ival
+
+    t = b.blocks[bi]["term"]
+    if t["k"] == "assert" and t["msg"].startswith("overflow:"):
+        op = t["msg"].split(":", 1)[1]
+        cond = t.get("cond")
+        if not (cond and is_place(cond) and cond["p"]["pr"]):
+            return None
+        tup = cond["p"]["l"]
+        st = [s_ for s_ in b.blocks[bi]["stmts"] if s_["k"] == "assign" and not s_["p"]["pr"] and s_["p"]["l"] == tup and s_["rv"]["k"] == "binop"]
+        if not st:
+            return None
+        a, c = st[-1]["rv"]["a"], st[-1]["rv"]["b"]
+        if op == "Sub":
+            la, lc = _len_of(b, a), _len_of(b, c)
+            if la is not None and lc is not None and _subslice_of(b, lc, la):
+                return f"len(x) - len(y) with y a sub-slice of x (`{b.local_name(la) or la}` / `{b.local_name(lc) or lc}`)"
+        if b.id not in _IV:
+            _IV[b.id] = ival.Interval(b)
+        iv = _IV[b.id]
+        A, C = iv.at_call(bi, a), iv.at_call(bi, c)
+        if A and C:
+            (alo, ahi), (clo, chi) = ival.bounds(A), ival.bounds(C)
+            ty = b.local_ty(tup).strip("()").split(",")[0].strip()
+            r = ival.INT_RANGE.get(ty)
+            if r:
+                if op == "Sub" and alo - chi >= r[0]:
+                    return f"interval proof: [{alo},{ahi}] - [{clo},{chi}] stays in {ty}"
+                if op == "Add" and ahi + chi <= r[1] and alo + clo >= r[0]:
+                    return f"interval proof: [{alo},{ahi}] + [{clo},{chi}] stays in {ty}"
+                if op == "Mul" and ahi * chi <= r[1] and alo >= 0 and clo >= 0:
+                    return f"interval proof: [{alo},{ahi}] * [{clo},{chi}] stays in {ty}"
+        return None
+    if t["k"] == "call":
+        f = fn_of(t) or {}
+        k = kind_of_call(f) or ""
+        if k in ("call:split_at", "call:split_at_mut") and len(t["args"]) == 2:
+            root = _slice_root(b, t["args"][0])
+            if _min_with_len_of(b, t["args"][1], root, bi):
+                return "split point is min(len(slice), ..) of the same slice"
+        if k.startswith("call:index:std::ops::RangeTo<") or k.startswith("call:index:std::ops::RangeFrom<"):
+            root = _slice_root(b, t["args"][0])
+            tr = trace(b, t["args"][1])
+            if tr.origin and tr.origin[0] == "agg" and tr.origin[1]["rv"]["ops"] and _min_with_len_of(b, tr.origin[1]["rv"]["ops"][0], root, bi):
+                return "range bound is min(len(slice), ..) of the same slice"
+        if k.startswith("call:index:std::ops::RangeFull"):
+            return "[..] cannot fail"
+    return None
+
+
 @rule("R04.1", 30, "panic-edge inventory: every panic-capable MIR edge (asserts, panicking library entry points) is within the reviewed multiset", ["C04"])
 def r04_1(ctx):
     rv = _reviewed()
     total = 0
+    proved_seen = {}
+    _IV.clear()
     for crate in (ctx.lib, ctx.bin):
         want = rv.get(crate.kind, {})
         edges = panic_edges(crate)
@@ -68,13 +226,20 @@ def r04_1(ctx):
         for f, ks in sorted(per_file.items()):
             for k, locs in sorted(ks.items()):
                 total += len(locs)
+                proofs = [(x, bi, ln, local_proof(x, bi)) for x, bi, ln in locs]
+                proved = [p for p in proofs if p[3]]
+                open_ = [p for p in proofs if not p[3]]
+                for x, bi, ln, why_ in proved:
+                    ctx.ob(f"{crate.kind}:{f}:{k}:proved:{x.name}:{_nth(proved_seen, (f, k, x.name))}", True, site(x, bi), "dead edge by a local argument: " + why_, trivial=True)
+                if not open_:
+                    continue
                 allowed = want.get(f, {}).get(k, {}).get("count", 0)
-                ok = len(locs) <= allowed
+                ok = len(open_) <= allowed
                 why = want.get(f, {}).get(k, {}).get("why", "NOT REVIEWED")
-                b0, bi0, _ = locs[0]
+                b0, bi0, _, _ = open_[0]
                 ctx.ob(f"{crate.kind}:{f}:{k}", ok, site(b0, bi0),
-                       f"{len(locs)} edge(s), reviewed {allowed}: {why[:300]}" if ok else
-                       f"unreviewed panic edge: {len(locs)} `{k}` edge(s) in {f} at {sorted({(x.name, ln) for x, _, ln in locs})}, {allowed} reviewed for this file")
+                       f"{len(open_)} edge(s) without a local proof, reviewed {allowed}: {why[:300]}" if ok else
+                       f"unreviewed panic edge: {len(open_)} `{k}` edge(s) in {f} without a local proof at {sorted({(x.name, ln) for x, _, ln, _ in open_})}, {allowed} reviewed for this file")
     ctx.ob("edges-counted", total >= 30, "lib+bin", f"{total} panic-capable edge(s) in this configuration ({ctx.config})")
     # positive control: the same enumerator sees the control crate's panics
     ctl = ctx.facts.controls
@@ -83,6 +248,11 @@ def r04_1(ctx):
         kinds = {k.split(":")[1] if k.startswith("call:") else k.split(":")[0] for k in e}
         for need in ("assert", "index", "option.unwrap", "result.expect", "split_at", "panic"):
             ctx.ob(f"control:{need}", any(need in k for k in e), "tables/controls/src/lib.rs", f"enumerator sees `{need}` in the positive control", trivial=True)
+
+
+def _nth(d, k):
+    d[k] = d.get(k, 0) + 1
+    return d[k] - 1
 
 
 def _find(lib, pred):
@@ -155,19 +325,26 @@ def r04_2(ctx):
             if sw2["k"] != "switch":
                 continue
             for s in nv.blocks[bi]["stmts"]:
-                if s["k"] == "assign" and s["rv"]["k"] == "binop" and s["rv"]["op"] in ("Le", "Lt"):
-                    rb = s["rv"]["b"]
-                    # right operand: len of input (PtrMetadata of arg 1 or a len() call on it)
-                    ok_len = False
-                    if is_place(rb):
-                        ds = nv.whole_defs(rb["p"]["l"])
-                        for _, _, kind, payload in ds:
-                            if kind == "assign" and payload["rv"]["k"] == "unop" and payload["rv"]["op"] == "PtrMetadata" and trace(nv, payload["rv"]["a"]).origin == ("arg", 1):
-                                ok_len = True
-                            if kind == "call" and (fn_of(payload) or {}).get("name") == "len" and trace(nv, payload["args"][0]).origin == ("arg", 1):
-                                ok_len = True
-                    if ok_len and s["rv"]["op"] == "Le":
-                        le_edges.append((bi, "otherwise", sw2["otherwise"], s["rv"]["a"]))
+                if s["k"] == "assign" and s["rv"]["k"] == "binop" and s["rv"]["op"] in ("Le", "Lt", "Ge", "Gt"):
+                    op_ = s["rv"]["op"]
+                    la, lb = s["rv"]["a"], s["rv"]["b"]
+
+                    def is_len(o):
+                        return _len_of(nv, o) == 1 or (is_place(o) and any(
+                            (kind == "assign" and payload["rv"]["k"] == "unop" and payload["rv"]["op"] == "PtrMetadata" and trace(nv, payload["rv"]["a"]).origin == ("arg", 1)) or
+                            (kind == "call" and (fn_of(payload) or {}).get("name") == "len" and trace(nv, payload["args"][0]).origin == ("arg", 1))
+                            for _, _, kind, payload in nv.whole_defs(o["p"]["l"])))
+
+                    zero = [x for v_, x in sw2["targets"] if v_ == 0]
+                    # the edge on which `size <= input.len()` holds, and which operand is the size
+                    if op_ == "Le" and is_len(lb):
+                        le_edges.append((bi, "otherwise", sw2["otherwise"], la))
+                    elif op_ == "Ge" and is_len(la):
+                        le_edges.append((bi, "otherwise", sw2["otherwise"], lb))
+                    elif op_ == "Gt" and is_len(lb) and zero:
+                        le_edges.append((bi, 0, zero[0], la))
+                    elif op_ == "Lt" and is_len(la) and zero:
+                        le_edges.append((bi, 0, zero[0], lb))
         n_ok = 0
         for bi in sorted(nv.reach()):
             for s in nv.blocks[bi]["stmts"]:
@@ -213,7 +390,7 @@ def r04_2(ctx):
     cap, guard = r_c09._capture_adts(lib)
     rd = [b for b in lib.bodies if b.raw.get("impl_trait") == "std::io::Read" and b.raw.get("impl_self_adt") == cap and b.name == "read"]
     for b in rd:
-        mins = [(bb, t) for bb, t in b.calls() if (fn_of(t) or {}).get("def") in ("std::cmp::min",)]
+        mins = [(bb, t) for bb, t in b.calls() if (fn_of(t) or {}).get("def") in ("std::cmp::min", "std::cmp::Ord::min")]
         ok_min = False
         for bb, t in mins:
             for a in t["args"]:
@@ -226,6 +403,11 @@ def r04_2(ctx):
             n = 0
             for bb, t in b.calls():
                 k = kind_of_call(fn_of(t) or {"def": "", "name": ""}) or ""
+                if k in ("call:split_at", "call:split_at_mut") and len(t["args"]) > 1:
+                    o = trace(b, t["args"][1])
+                    from_min = bool(o.origin and o.origin[0] == "call" and o.origin[2] is mins[0][1])
+                    n += 1
+                    ctx.ob(f"G6:slice-bound:{n}", from_min, site(b, bb), "split point is prefix_size (min)" if from_min else "split point of unknown provenance")
                 if k.startswith("call:index") and len(t["args"]) > 1:
                     tr = trace(b, t["args"][1])
                     if tr.origin and tr.origin[0] == "agg":
